@@ -202,17 +202,31 @@ def run_property(pid, tier):
     if violations:
         from . import replay
         # one VIOLATION line per failed obligation (grouped by unit/fn to keep output readable)
+        confirmed = []
         for fo in violations:
             path, found = replay.make_replay(pid, fo, tup, seed)
+            if fo.get('needs_witness') and not found:
+                # degraded unit (proof hints lost after a rewrite): undecided without a concrete failing input
+                print('INCONCLUSIVE unit=%s reason=function %s was rewritten (proof hints lost), obligation undecided and no failing input found: %s'
+                      % (fo['unit'], fo['fn'], fo['name'][:200]))
+                if rc == 0:
+                    rc = 2
+                continue
+            confirmed.append(fo)
             replay_paths.append(path)
             print('VIOLATION property=%s replay=%s%s' % (pid, path, '' if found else ' no-failing-input-found'))
             print('  failed obligation: %s' % fo['name'])
             print('  verifier: %s' % fo['message'])
-        rc = 1
+        violations = confirmed
+        if violations:
+            rc = 1
     for r in inconclusive:
         print('INCONCLUSIVE unit=%s reason=%s' % (r.name, r.reason))
         if rc == 0:
             rc = 2
+    for r in results:
+        if r.degraded and r.status == 'ok':
+            print('NOTE unit=%s verified without some proof hints: %s' % (r.name, '; '.join(r.degraded)))
     write_evidence(evpath, pid, tier, seed, level, results, violations, known_hits, inconclusive, t0, claim)
     if rc == 0:
         nob = sum(1 for r in results for o in r.obligations if relevant(o, pid))
